@@ -921,24 +921,4 @@ class NPProxy:
 
 
 
-class _NdarrayMeta(type):
-    """np.ndarray inside porepy modules: isinstance works as for the real class; the rare direct
-    constructor call np.ndarray(shape, dtype=float) gives an object array inside a session."""
-
-    def __instancecheck__(cls, obj):
-        return isinstance(obj, _np.ndarray)
-
-    def __subclasscheck__(cls, sub):
-        return issubclass(sub, _np.ndarray)
-
-    def __call__(cls, shape, dtype=float, *a, **k):
-        if Session.active and dtype in _REAL_DTYPES and not a and not k:
-            arr = _np.empty(shape, dtype=object)
-            arr.fill(0.0)
-            return arr.view(SymArr)
-        return _np.ndarray(shape, dtype, *a, **k)
-
-
-NPProxy.ndarray = _NdarrayMeta("ndarray", (), {})
-
 npproxy = NPProxy()
